@@ -132,8 +132,9 @@ where
         }
 
         let payload_offset = FlexVec::<T, L>::OFFSET_SIZE;
-        if payload_offset > next_offset {
+        if !last && payload_offset > next_offset {
             // The offset points inside its own slot: no amount of further data can make it valid.
+            // (`L::MAX` is a marker, not an offset: it may be smaller than a slot when `T::ALIGN > L::MAX`.)
             return Some(Err(Error {
                 kind: ErrorKind::InvalidData,
                 pos: self.pos,
